@@ -19,3 +19,18 @@ class Sub:
 
     def sanitizer_scope(self, case):
         return self.mod.sanitizer_scope(case) if hasattr(self.mod, "sanitizer_scope") else True
+
+
+class Slice:
+    """Adapter: a share of a (heavy) generator's cases - every `step`-th case starting at `offset` in the quick tier, all of
+    them in the thorough tier; everything else is forwarded."""
+
+    def __init__(self, mod, step, offset):
+        self.mod, self.step, self.offset = mod, step, offset
+
+    def gen(self, tier, seed):
+        cs = self.mod.gen(tier, seed)
+        return cs if tier != "quick" else [c for i, c in enumerate(cs) if i % self.step == self.offset % self.step]
+
+    def __getattr__(self, name):
+        return getattr(self.mod, name)
